@@ -14,6 +14,9 @@ fn main() {
         "C13" => props::c13::run(&args),
         "C11" => props::c11::run(&args),
         "C15" => props::c15::run(&args),
+        // parts of properties whose main check lives in another crate (driver: "also")
+        "C07" => props::errfam::run_part(&args, props::errfam::Mode::C07),
+        "C08" => props::errfam::run_part(&args, props::errfam::Mode::C08),
         p => mcx::machinery_error(&format!("rt-store does not serve {p}")),
     }
 }
